@@ -6,7 +6,8 @@ EXTENDS Naturals, Sequences, SequencesExt, Json, IOUtils, TLC
 Ops == {[m |-> "GET", u |-> "u1", cc |-> FALSE, st |-> 200], [m |-> "GET", u |-> "u2", cc |-> FALSE, st |-> 200],
         [m |-> "GET", u |-> "u1", cc |-> TRUE, st |-> 200], [m |-> "HEAD", u |-> "u1", cc |-> FALSE, st |-> 200],
         [m |-> "POST", u |-> "u1", cc |-> FALSE, st |-> 200],
-        [m |-> "GET", u |-> "u1", cc |-> FALSE, st |-> 206]}     \* a ranged GET answered 206 Partial Content (never kept)
+        [m |-> "GET", u |-> "u1", cc |-> FALSE, st |-> 206],     \* a ranged GET answered 206 Partial Content (never kept)
+        [m |-> "QUIET", u |-> "u1", cc |-> FALSE, st |-> 0]}     \* the agents stop polling: whatever follows is answered 404
 Seqs == [1..2 -> Ops] \cup [1..3 -> Ops]
 VARIABLE x
 GInit == x = 0
